@@ -26,8 +26,8 @@ SIZES = {"quick": 2500, "thorough": 12000}
 
 _i = st.integers(0, 7)
 _o = st.integers(0, 5)
-PN = ["c", "r", "name", "cn", "cs", "n", "ic"]
-CONST = ("c", "r", "name", "cn", "cs")
+PN = ["c", "r", "name", "cn", "cs", "n", "ic", "ca"]
+CONST = ("c", "r", "name", "cn", "cs", "ca")
 
 
 def _ops():
@@ -35,6 +35,12 @@ def _ops():
         st.tuples(st.just("new"), st.integers(0, 1), st.sampled_from(["", "", "c", "r", "name", "cn", "cs"]), _o),
         st.tuples(st.just("set"), _i, st.integers(0, 6), _o, st.sampled_from(["attr", "update"])),
         st.tuples(st.just("inst_const"), _i),
+        # a reference (a Parameter of another object) assigned to the constant allow_refs parameter: refused like any value
+        st.tuples(st.just("set_ref"), _i, st.sampled_from(["attr", "update"])),
+        # ... and the source of such a reference changes later
+        st.tuples(st.just("src_bump"), _o),
+        # a callback run by param.trigger tries to assign a constant of the same object
+        st.tuples(st.just("trig_assign"), _i, st.integers(0, 4), _o),
         st.tuples(st.just("pf_instance"), st.sampled_from(["cls_ro", "inst_ro"]), _o),
         st.tuples(st.just("set"), _i, st.integers(0, 4), _o, st.sampled_from(["attr", "update"])),
         st.tuples(st.just("set_same"), _i, st.integers(0, 4), st.sampled_from(["attr", "update"])),
@@ -64,7 +70,9 @@ def _case(draw):
         rest.insert(draw(st.integers(0, len(rest))), ["inst_const", draw(_i)])
     if draw(st.integers(0, 11)) == 0:
         return {"scenario": "time_type", "pre_read": draw(st.booleans()), "calls": draw(st.lists(st.sampled_from(["float", "int", "fraction"]), min_size=1, max_size=3)),
-                "route": draw(st.sampled_from(["attr", "update"])), "ops": []}
+                "route": draw(st.sampled_from(["attr", "update"])), "ops": [],
+                # a watcher of time_type raises during its k-th invocation (0: never)
+                "watcher_raises_at": draw(st.sampled_from([0, 0, 1, 2]))}
     if draw(st.integers(0, 7)) == 0:
         return {"scenario": "async_window", "kind": draw(st.sampled_from(["agen", "coro"])),
                 "target": draw(st.sampled_from(["c", "name", "cn", "r"])), "route": draw(st.sampled_from(["attr", "update"])),
@@ -143,8 +151,20 @@ def _execute_time_type(case):
     t = param.Time()
     if case["pre_read"]:
         t.param["time_type"]           # the per-instance Parameter object exists before the call
+    ncall = [0]
+
+    def watcher(*events):
+        ncall[0] += 1
+        if ncall[0] == case.get("watcher_raises_at", 0):
+            raise _Boom("time_type watcher")
+    if case.get("watcher_raises_at"):
+        t.param.watch(watcher, "time_type", onlychanged=False)
+        res.label("time_type_watcher_raises")
     for name in case["calls"]:
-        t(1, time_type=types[name])
+        try:
+            t(1, time_type=types[name])
+        except _Boom:
+            continue
         if t.time_type is not types[name]:
             res.fail("C14.time_type_call", f"Time.__call__(1, time_type={name}) left time_type at {t.time_type!r}")
     held = t.time_type
@@ -187,7 +207,10 @@ def execute(case):
         "cs": param.Parameter(default=ints[1], constant=True),
         "n": param.Number(default=1),
         "ic": param.Parameter(default=objs[3]),          # an ordinary parameter; may be made constant on one instance
+        "ca": param.Parameter(default=objs[2], constant=True, allow_refs=True),
     })
+    Src = type("Src", (param.Parameterized,), {"v": param.Parameter(default=objs[5])})
+    src = Src()
     KF = type("KF", (param.ParameterizedFunction,), {
         "c": param.Parameter(default=objs[0], constant=True),
         "ro": param.Parameter(default=objs[1], readonly=True),
@@ -255,7 +278,7 @@ def execute(case):
                 continue
             o = cls(**kw)
             held = {"c": kw.get("c", cls.c), "r": cls.r, "name": o.name,
-                    "cn": kw.get("cn", cls.cn), "cs": kw.get("cs", cls.cs), "ic": cls.ic}
+                    "cn": kw.get("cn", cls.cn), "cs": kw.get("cs", cls.cs), "ic": cls.ic, "ca": cls.ca}
             for n in ("c", "cn", "cs"):
                 if n in kw and getattr(o, n) is not kw[n]:
                     res.fail("C14.ctor_value", f"{tag}: constructor keyword {n} not installed")
@@ -330,6 +353,54 @@ def execute(case):
                                                      f"edit_constant (now {getattr(o, n)!r})")
                     rec["held"][n] = getattr(o, n)
                 res.label("forbidden_attempt" if not identical else "identical_attempt")
+        elif kind == "set_ref":
+            if not insts:
+                continue
+            idx = op[1] % len(insts)
+            rec = insts[idx]
+            if idx in [b[1] for b in stack]:
+                continue            # inside its own edit_constant block the link would be a legitimate edit
+            try:
+                if op[2] == "attr":
+                    rec["obj"].ca = src.param.v
+                else:
+                    rec["obj"].param.update(ca=src.param.v)
+            except TypeError:
+                pass
+            else:
+                res.fail("C14.constant_rebound", f"{tag}: a reference assigned to the constant parameter ca of inst{idx} was accepted")
+                rec["held"]["ca"] = rec["obj"].ca
+            res.label("reference_assigned_to_constant")
+        elif kind == "src_bump":
+            src.v = [100 + op[1]]        # what the refused references point at changes: no constant may follow (check_held)
+            res.label("source_of_refused_reference_changes")
+        elif kind == "trig_assign":
+            if not insts:
+                continue
+            idx = op[1] % len(insts)
+            rec = insts[idx]
+            if idx in [b[1] for b in stack]:
+                continue
+            n = ["c", "name", "cn", "cs", "r"][op[2]]
+            o = rec["obj"]
+            outcome = []
+
+            def attempt(*events):
+                try:
+                    setattr(o, n, val_for(n, op[3]))
+                    outcome.append("accepted")
+                except TypeError:
+                    outcome.append("refused")
+            h = o.param.watch(attempt, "n", onlychanged=False)
+            try:
+                o.param.trigger("n")
+            finally:
+                o.param.unwatch(h)
+            if outcome == ["accepted"] and getattr(o, n) is not rec["held"][n]:
+                res.fail("C14.constant_rebound" if n != "r" else "C14.readonly_assigned",
+                         f"{tag}: a callback run by param.trigger rebound {n!r} of inst{idx} outside edit_constant")
+                rec["held"][n] = getattr(o, n)
+            res.label("constant_assigned_by_callback_during_trigger")
         elif kind == "inst_const":
             # the flag is raised on one instance's own Parameter object only (the class and the others stay ordinary)
             if not insts or stack:
